@@ -28,6 +28,7 @@ func main() {
 	summary := flag.Bool("summary", false, "print one machine-readable SUMMARY line per property (used by the thorough tier's child runs)")
 	noself := flag.Bool("noselftest", false, "thorough: skip the seeded-change corpus")
 	dump := flag.String("dump", "", "debug: dump the traces of a function (qualified name)")
+	dumpFields := flag.Bool("dumpfields", false, "debug: print the unexported struct fields of the library packages (to regenerate a_known.go)")
 	explain := flag.Bool("explain", false, "print every obligation")
 	list := flag.Bool("list", false, "list registered properties")
 	flag.Parse()
@@ -83,6 +84,20 @@ func main() {
 	}
 	fmt.Printf("loaded %d packages, %d files, %d functions from %s (module go %s%s) in %.1fs\n",
 		len(p.Pkgs), p.Files, len(p.Funcs), *repo, p.GoVersion, cfgLabel(*goos, *goarch), time.Since(start).Seconds())
+	if *dumpFields {
+		for _, l := range p.structFields() {
+			fmt.Println("FIELD\t" + l)
+		}
+		var ns []string
+		for n := range p.Funcs {
+			ns = append(ns, n)
+		}
+		sort.Strings(ns)
+		for _, n := range ns {
+			fmt.Println("FUNC\t" + n + "\t" + sigString(p.Funcs[n].Obj))
+		}
+		return
+	}
 	if *dump != "" {
 		dumpTraces(p, *dump)
 		return
